@@ -76,7 +76,7 @@ class Collector(object):
         self.rep, self.rule_exact, self.rule_reject, self.rule_bounds, self.codec, self.f = rep, rule_exact, rule_reject, rule_bounds, codec, f
         self.bad = {}
 
-    def cell(self, name, results, expect_units, expect_consumed, reason):
+    def cell(self, name, results, expect_units, expect_consumed, reason, max_consumed=None):
         rep = self.rep
         accepted, rejected, other = classify(results)
         ung = ungarded_of(results)
@@ -107,8 +107,12 @@ class Collector(object):
             hard_reject = {r for r in rejected if r[0] in ('skip', 'fail')}
             if hard_reject and not accepted and not other:
                 bad_pos = [r for r in rejected if r[0] == 'fail' and (r[1] != 0 or r[2] != 1)]
+                over = [r for r in rejected if r[0] == 'skip' and max_consumed is not None and isinstance(r[2], int) and r[2] > max_consumed]
                 if bad_pos:
                     self.bad.setdefault((self.rule_reject, 'failure does not identify the start of the ill-formed sequence'), []).append((name, str(bad_pos)))
+                elif over:
+                    self.bad.setdefault((self.rule_reject, 'replacing an ill-formed sequence also swallows the following well-formed unit(s)'), []).append(
+                        (name, 'consumes %d unit(s), at most %d belong to the ill-formed sequence' % (over[0][2], max_consumed)))
                 else:
                     rep.ok(self.rule_reject, site, sample={'codec': self.codec, 'cell': name, 'ill_formed_because': reason, 'outcomes': sorted(map(str, rejected))}
                            if name.endswith(('ED A0..BF', 'low surrogate')) else None)
@@ -150,7 +154,10 @@ def check_utf8_decode(prog, rep, rule_exact, rule_reject, rule_bounds):
                     exp = S.utf16_units_of(lo, hi) if width == 16 else [(lo, hi)]
                     col.cell(name, results, exp, n, None)
                 else:
-                    col.cell(name, results, None, None, reason)
+                    mc = None
+                    if c2 is not None and (c2[1] < 0x80 or (c2[0] >= 0xC2 and c2[1] <= 0xF4)):
+                        mc = 1          # the next byte begins a new sequence (ASCII or a valid lead byte, D93b) and must be left for it
+                    col.cell(name, results, None, None, reason, max_consumed=mc)
         col.flush()
 
 
@@ -164,9 +171,9 @@ def check_encode_from32(prog, rep, rule_exact, rule_reject, rule_bounds):
             results = seqs(U.run(prog, f, units))
             nm = '%X..%X' % (lo, hi)
             if kind in ('high surrogate', 'low surrogate'):
-                col.cell(nm + ' ' + kind, results, None, None, 'surrogate code point in UTF-32 input')
+                col.cell(nm + ' ' + kind, results, None, None, 'surrogate code point in UTF-32 input', max_consumed=1)
             elif kind == 'out of range':
-                col.cell(nm, results, None, None, 'code point above U+10FFFF')
+                col.cell(nm, results, None, None, 'code point above U+10FFFF', max_consumed=1)
             else:
                 exp = S.utf8_bytes_of(lo, hi) if out_char == 'char' else S.utf16_units_of(lo, hi)
                 col.cell(nm, results, exp, 1, None)
@@ -189,10 +196,10 @@ def check_from16(prog, rep, rule_exact, rule_reject, rule_bounds):
                         exp = S.utf8_bytes_of(plo, phi) if out_char == 'char' else [(plo, phi)]
                         col.cell(nm, results, exp, 2, None)
                     else:
-                        col.cell(nm + ' (%s)' % k2, results, None, None, 'high surrogate not followed by a low surrogate')
+                        col.cell(nm + ' (%s)' % k2, results, None, None, 'high surrogate not followed by a low surrogate', max_consumed=1)
             elif kind == 'low surrogate':
                 results = seqs(U.run(prog, f, [Iv(lo, hi), Iv(0, 0xFFFF)]))
-                col.cell('%X..%X low surrogate' % (lo, hi), results, None, None, 'lone low surrogate')
+                col.cell('%X..%X low surrogate' % (lo, hi), results, None, None, 'lone low surrogate', max_consumed=1)
             else:
                 results = seqs(U.run(prog, f, [Iv(lo, hi), Iv(0, 0xFFFF)]))
                 exp = S.utf8_bytes_of(lo, hi) if out_char == 'char' else [(lo, hi)]
